@@ -337,6 +337,31 @@ def a_lru(*args, **kwargs):
 @contextlib.contextmanager
 def a_ctx(*args, **kwargs):
     yield callee(*args, **kwargs)
+class A_NoTruth:
+    # the result of comparing it has no truth value (like a numpy array or a query expression)
+    def __eq__(self, other):
+        return A_NoTruth()
+    def __ne__(self, other):
+        return A_NoTruth()
+    def __bool__(self):
+        raise TypeError('the truth value of a comparison is ambiguous')
+    __hash__ = object.__hash__
+    def __repr__(self):
+        return 'NoTruth'
+class A_EqualsAll:
+    def __eq__(self, other):
+        return True
+    def __ne__(self, other):
+        return False
+    __hash__ = object.__hash__
+    def __repr__(self):
+        return 'ANY'
+def a_annot_notruth(value, factor: A_NoTruth() = 1, *, clamp=False) -> A_NoTruth():
+    return None
+def a_annot_equalsall(pattern: A_EqualsAll(), flags=0) -> A_EqualsAll():
+    return None
+def a_annot_notruth_fwd(value: A_NoTruth(), *args, **kwargs):
+    return callee(*args, **kwargs)
 class A_Model:
     # a descriptor CLASS reached as a member of another class (documented as Model.Column):
     # the class itself is the documented object, its __get__ is for its instances
@@ -479,6 +504,10 @@ def check_object(name, obj, rep, stats, narrow_reqs, narrow_meta):
         d_got, d_own = shape_only(d_got), shape_only(d_own)
         if d_got['params'] == d_own['params']:
             stats['narrow_identical'] += 1
+            if name.startswith('adversarial.') and is_plain(obj) and str(got) != str(own):
+                # same parameters: the text (annotations, defaults) is the one inspect gives
+                rep.violation('C07:text', 'sigtools.signature(%s) prints %s, inspect.signature prints %s' % (name, got, own),
+                              {'kind': 'object', 'name': name, 'label': 'text'})
             return
         if len({q[0] for q in d_got['params']} | {q[0] for q in d_own['params']}) > 10:
             stats['narrow_skipped_large'] += 1      # 2^n call shapes: not decided
